@@ -3,7 +3,7 @@
 From Coq Require Import List Bool.
 From Coq Require Import NArith Arith.
 From Carquet Require Import Base.Res Gen.Dispatch_gen Gen.Intrinsics_gen Simd.DispatchModel Simd.DispatchProofs.
-From Carquet Require Import Simd.Vec Simd.ScalarKernels Simd.SseKernels Simd.Avx2Kernels Simd.Avx512Kernels Simd.BssProofs Simd.SeqProofs.
+From Carquet Require Import Simd.Vec Simd.ScalarKernels Simd.SseKernels Simd.Avx2Kernels Simd.Avx512Kernels Simd.BssProofs Simd.SeqProofs Simd.MemProofs Simd.LevelProofs.
 Import ListNotations.
 
 (** Dispatcher: for EVERY capability set (any list of features) and every slot of the dispatch table
@@ -147,3 +147,42 @@ Theorem sse_fill_def_levels_kernel_eq_scalar : forall count v out0,
   exists out, sse_fill_def_levels count v out0 = Ok out /\ scalar_fill_def_levels count v out0 = Ok out.
 Proof. exact sse_fill_def_levels_eq_scalar. Qed.
 Print Assumptions sse_fill_def_levels_kernel_eq_scalar.
+
+(** definition levels: carquet_sse_count_non_nulls, carquet_sse_build_null_bitmap (levels are int16_t: two bytes each;
+    max_def_level is a 16-bit value) *)
+Theorem sse_count_non_nulls_kernel_eq_scalar : forall count lv mx,
+  length lv = 2 * count -> bytes_ok lv -> (mx < 65536)%N ->
+  exists r, sse_count_non_nulls count lv mx = Ok r /\ scalar_count_non_nulls count lv mx = Ok r.
+Proof. exact sse_count_non_nulls_eq_scalar. Qed.
+Print Assumptions sse_count_non_nulls_kernel_eq_scalar.
+Theorem sse_build_null_bitmap_kernel_eq_scalar : forall count lv mx out0,
+  length lv = 2 * count -> (mx < 65536)%N -> length out0 = (count + 7) / 8 ->
+  exists out, sse_build_null_bitmap count lv mx out0 = Ok out /\ scalar_build_null_bitmap count lv mx out0 = Ok out.
+Proof. exact sse_build_null_bitmap_eq_scalar. Qed.
+Print Assumptions sse_build_null_bitmap_kernel_eq_scalar.
+
+(** memset / memcpy helpers *)
+Theorem sse_memset_small_kernel_eq_scalar : forall n v out0,
+  length out0 = n -> exists out, sse_memset_small n v out0 = Ok out /\ scalar_memset n v out0 = Ok out.
+Proof. exact sse_memset_small_eq_scalar. Qed.
+Print Assumptions sse_memset_small_kernel_eq_scalar.
+Theorem avx2_memset_kernel_eq_scalar : forall n v out0,
+  length out0 = n -> exists out, avx2_memset n v out0 = Ok out /\ scalar_memset n v out0 = Ok out.
+Proof. exact avx2_memset_eq_scalar. Qed.
+Print Assumptions avx2_memset_kernel_eq_scalar.
+Theorem avx512_memset_kernel_eq_scalar : forall n v out0,
+  length out0 = n -> exists out, avx512_memset n v out0 = Ok out /\ scalar_memset n v out0 = Ok out.
+Proof. exact avx512_memset_eq_scalar. Qed.
+Print Assumptions avx512_memset_kernel_eq_scalar.
+Theorem sse_memcpy_small_kernel_eq_scalar : forall n src out0,
+  length src = n -> length out0 = n -> exists out, sse_memcpy_small n src out0 = Ok out /\ scalar_memcpy n src out0 = Ok out.
+Proof. exact sse_memcpy_small_eq_scalar. Qed.
+Print Assumptions sse_memcpy_small_kernel_eq_scalar.
+Theorem avx2_memcpy_kernel_eq_scalar : forall n src out0,
+  length src = n -> length out0 = n -> exists out, avx2_memcpy n src out0 = Ok out /\ scalar_memcpy n src out0 = Ok out.
+Proof. exact avx2_memcpy_eq_scalar. Qed.
+Print Assumptions avx2_memcpy_kernel_eq_scalar.
+Theorem avx512_memcpy_kernel_eq_scalar : forall n src out0,
+  length src = n -> length out0 = n -> exists out, avx512_memcpy n src out0 = Ok out /\ scalar_memcpy n src out0 = Ok out.
+Proof. exact avx512_memcpy_eq_scalar. Qed.
+Print Assumptions avx512_memcpy_kernel_eq_scalar.
